@@ -75,25 +75,24 @@ theorem no_command_start_under_cancelled_context {s : Pool.State} (w : Nat) (h :
   simp only [Pool.step]
   split <;> simp_all
 
-/-- The clause "absent cache faults each selected target is executed at most once per build", stated on
-    the re-run model of `LoadDependencyOutputs` — the full statement (not a theorem: see the witness). -/
-def ExecAtMostOnce : Prop :=
-  ∀ c : Pool.RerunCfg, c.loadFails = false → Pool.execCount c ≤ 1
+/-- "Absent cache faults each selected target is executed at most once per build", on the re-run model
+    of `LoadDependencyOutputs` (both `load_outputs` modes). The hypothesis on `producedInThisBuild` is
+    what the walker guarantees: a dependant's task runs only after the dependency's own callback
+    completed successfully (`started_anc_ok`), and a no-cache target is never a cache hit, so its own
+    task executed it and set `OutputsLoaded`. -/
+theorem exec_at_most_once (c : Pool.RerunCfg) (hf : c.loadFails = false)
+    (hp : c.noCache = true → c.producedInThisBuild = true) : Pool.execCount c ≤ 1 := by
+  cases hn : c.noCache
+  · simp [Pool.execCount, hf, hn]
+  · simp [Pool.execCount, hf, hp hn]
 
-/-- what holds today: at most once in `load_outputs=all` mode, and in minimal mode for every dependency
-    that is not tagged `no-cache` -/
-theorem exec_at_most_once_partial (c : Pool.RerunCfg) (hf : c.loadFails = false)
-    (h : c.minimal = false ∨ c.noCache = false) : Pool.execCount c ≤ 1 := by
-  rcases h with h | h <;> simp [Pool.execCount, h, hf]
+example : Pool.execCount ⟨true, true, false, true, 5⟩ = 1 := by decide
 
-example : Pool.execCount ⟨true, false, false, 5⟩ = 1 := by decide
-
-/-- The current code violates the full statement: in minimal mode a `no-cache` dependency with two
-    executing dependants runs three times in one build without any cache fault (open finding
-    F-nocache-rerun; the same input is replayed on the real CLI by the check). -/
-theorem exec_more_than_once_witness : ¬ ExecAtMostOnce := by
-  intro h
-  have := h ⟨true, true, false, 2⟩ rfl
-  simp [Pool.execCount] at this
+/-- Regression witness (code before the repair of F-nocache-rerun, e34dacb): in minimal mode a `no-cache`
+    dependency with two executing dependants ran three times in one build without any cache fault.
+    The same input is replayed on the real CLI by the check (t0 no-cache with dependants t1, t2). -/
+theorem exec_more_than_once_witness_old :
+    Pool.execCountOld ⟨true, true, false, true, 2⟩ = 3 ∧ Pool.execCount ⟨true, true, false, true, 2⟩ = 1 := by
+  decide
 
 end Grog.C03
